@@ -872,6 +872,14 @@ class experiment:
         run_mode = run_mode or RunMode.NORMAL
         self.workspace = Workspace(settings, env, launcher=launcher, run_mode=run_mode)
 
+        # The experiment folder is <workdir>/xp/<name>: this is where the
+        # command line tools (orphans, jobs, experiments) look for its job index
+        if not name or name in (".", "..") or Path(name).name != name:
+            raise ValueError(
+                f"Invalid experiment name {name!r}: "
+                "it must be a single path component"
+            )
+
         # Mark the directory has an experimaestro folder
         self.workdir = self.workspace.experimentspath / name
         self.workdir.mkdir(parents=True, exist_ok=True)
